@@ -38,6 +38,7 @@ func c11Symbols() (syms []string) {
 		// white space other than blank, tab, CR at the edges of a line; a CR that is not followed by LF
 		"||vt.test^\v", "\u00a0||nbsp.test^", "||nel.test^\u0085", "\r||cr-start.test^", "example.org##.ad\r.banner",
 		"/ad", "a.b", // the shortest lines that are rules
+		"\xbf||latin1.test^", "\x80.test^x", // first byte 0x80..0xBF (a list saved in a single-byte encoding)
 	}
 	for _, n := range c11LongLens {
 		syms = append(syms, c11LongRule(n), c11LongComment(n))
